@@ -112,6 +112,21 @@ def custom_table_palette(variant=1):
             else:
                 border = ConfColor('KEYWORD')
 
+        if variant in (3, 4):
+            # variant 4: a table palette with an id of its own; variant 3: a palette that names variant 4 as its PARENT
+            # palette and declares the same id again, with another colour (the parent's description is the one that
+            # counts: parents are registered first)
+            class VfParentTablePalette(PPTable.TablePalette):
+                SYNTAX_DEFAULTS = dict(PPTable.TablePalette.SYNTAX_DEFAULTS or {}, **{"VFCUSTOM.PB": "RED:underline"})
+                border = ConfColor('VFCUSTOM.PB')
+
+            class VfChildTablePalette(PPTable.TablePalette):
+                PARENT_PALETTES = [VfParentTablePalette]
+                SYNTAX_DEFAULTS = dict(PPTable.TablePalette.SYNTAX_DEFAULTS or {}, **{"VFCUSTOM.PB": "GREEN:bold"})
+                border = ConfColor('VFCUSTOM.PB')
+
+            _CUSTOM[3], _CUSTOM[4] = VfChildTablePalette, VfParentTablePalette
+            return _CUSTOM[variant]
         _CUSTOM[variant] = VfTablePalette
     return _CUSTOM[variant]
 
@@ -168,8 +183,9 @@ def render(obj, ospec, req, conf_dict, live_conf=None, observe=None):
         kw = dict(no_color=no_color)
     elif via == 'palette_class' and kind in PALETTE_CLASSES:
         kw = dict(palette=PALETTE_CLASSES[kind](), colors_conf=conf, no_color=no_color)
-    elif via in ('custom_palette', 'custom_palette2') and kind == 'table':
-        kw = dict(palette=custom_table_palette(2 if via.endswith('2') else 1), colors_conf=conf, no_color=no_color)
+    elif via in ('custom_palette', 'custom_palette2', 'custom_palette3', 'custom_palette4') and kind == 'table':
+        kw = dict(palette=custom_table_palette(int(via[-1]) if via[-1].isdigit() else 1), colors_conf=conf,
+                  no_color=no_color)
     elif via == 'palette_obj' and kind in PALETTE_CLASSES:
         kw = dict(palette=PALETTE_CLASSES[kind]()(conf), no_color=no_color)
     else:
